@@ -4,7 +4,7 @@ use crate::drive::{execute, new_store, Outcome};
 use crate::model::*;
 use crate::util::Panic;
 use serde_json::{json, Value};
-use stam::{AnnotationStore, Config, Configurable, StoreFor};
+use stam::{AnnotationStore, Config, Configurable};
 
 #[derive(Debug, Clone)]
 pub enum Agreement {
@@ -146,7 +146,7 @@ pub fn diff_kind(model: &Value, real: &Value) -> &'static str {
     }
 }
 
-const VOCAB: [&str; 36] = [
+const VOCAB: [&str; 37] = ["resources_as_metadata", 
     "lookups", "resources", "datasets", "annotations", "keys", "data", "textselections", "annotations_len", "annotations_count",
     "annotations_as_metadata", "annotations_in_targets", "annotations_in_targets_max", "target", "text", "id", "name", "value", "key",
     "sub", "k", "res", "b", "e", "mode", "a", "set", "h", "annotations_handles_differs", "t", "v", "off", "changed", "substores",
